@@ -4,7 +4,7 @@ From Coq Require Import ZArith List Bool Permutation Sorting.Sorted.
 From VV Require Import gen.GenNumeric model.Alloc proofs.AllocProofs proofs.AllocGreedyProofs proofs.AllocLinearProofs
   proofs.AllocHillProofs proofs.AllocHillNbrProofs proofs.AllocHillSearchProofs proofs.AllocHillPeakProofs
   proofs.AllocHillTermProofs proofs.AllocHillOutcomeProofs proofs.AllocHillIndexProofs proofs.AllocHillWalkProofs
-  proofs.AllocExamples.
+  proofs.AllocDispatchProofs proofs.AllocExamples.
 Import ListNotations.
 Open Scope Z_scope.
 
@@ -59,13 +59,13 @@ Theorem greedy_zero_size_refuted :
 Proof. exact greedy_zero_size_refuted_lemma. Qed.
 
 (* ------------------------------ Linear ------------------------------ *)
-(* R: any equivalence containing what the input declares (equal compression config, equal equivalence
-   id); tensors declared equivalent have equal sizes.  Tensors that are not R-related get disjoint
+(* R: any equivalence containing what the input declares between its own entries (equal compression config,
+   equal equivalence id); tensors declared equivalent have equal sizes.  Tensors that are not R-related get disjoint
    intervals (whatever their live ranges). *)
 Theorem linear_no_overlap : forall g (R : lin -> lin -> Prop), 0 < g ->
   (forall a, R a a) -> (forall a b, R a b -> R b a) -> (forall a b c, R a b -> R b c -> R a c) ->
-  (forall a b, linked a b -> R a b) ->
-  forall es addrs total,
+  forall es, (forall a b, In a es -> In b es -> linked a b -> R a b) ->
+  forall addrs total,
     (forall e, In e es -> 0 <= l_size e) ->
     (forall e1 e2, In e1 es -> In e2 es -> linked e1 e2 -> l_size e1 = l_size e2) ->
     linear g es = Ok (addrs, total) ->
@@ -75,8 +75,8 @@ Theorem linear_no_overlap : forall g (R : lin -> lin -> Prop), 0 < g ->
        nth_error addrs i = Some a1 -> nth_error addrs j = Some a2 ->
        R e1 e2 \/ disjoint a1 (l_size e1) a2 (l_size e2).
 Proof.
-  intros g R Hg Hr Hs Ht Hl es addrs total H1 H2 H3.
-  destruct (linear_spec_lemma g Hg R Hr Hs Ht Hl es addrs total H1 H2 H3) as (A & B & _). split; assumption.
+  intros g R Hg Hr Hs Ht es Hl addrs total H1 H2 H3.
+  destruct (linear_spec_lemma g Hg R Hr Hs Ht es Hl addrs total H1 H2 H3) as (A & B & _). split; assumption.
 Qed.
 
 (* tensors declared equivalent share one address *)
@@ -97,8 +97,8 @@ Theorem linear_aligned : forall g es addrs total i e a, 0 < g ->
   nth_error es i = Some e -> nth_error addrs i = Some a -> (g | a) /\ 0 <= a.
 Proof.
   intros g es addrs total i e a Hg H1 H2 H3 He Ha.
-  destruct (linear_spec_lemma g Hg (fun _ _ => True) (fun _ => I) (fun _ _ _ => I) (fun _ _ _ _ _ => I) (fun _ _ _ => I)
-              es addrs total H1 H2 H3) as (_ & _ & C & _).
+  destruct (linear_spec_lemma g Hg (fun _ _ => True) (fun _ => I) (fun _ _ _ => I) (fun _ _ _ _ _ => I) es (fun _ _ _ _ _ => I)
+              addrs total H1 H2 H3) as (_ & _ & C & _).
   destruct (C i e a He Ha) as (X & Y & _). split; assumption.
 Qed.
 
@@ -115,8 +115,8 @@ Theorem linear_total_is_extent : forall g es addrs total, 0 < g ->
                              total = a + round_up (l_size e) g /\ total < a + l_size e + g).
 Proof.
   intros g es addrs total Hg H1 H2 H3.
-  destruct (linear_spec_lemma g Hg (fun _ _ => True) (fun _ => I) (fun _ _ _ => I) (fun _ _ _ _ _ => I) (fun _ _ _ => I)
-              es addrs total H1 H2 H3) as (_ & _ & C & D & E).
+  destruct (linear_spec_lemma g Hg (fun _ _ => True) (fun _ => I) (fun _ _ _ => I) (fun _ _ _ _ _ => I) es (fun _ _ _ _ _ => I)
+              addrs total H1 H2 H3) as (_ & _ & C & D & E).
   split; [|split; assumption]. intros i e a He Ha. destruct (C i e a He Ha) as (_ & _ & Z). exact Z.
 Qed.
 
@@ -206,6 +206,23 @@ Theorem hillclimb_randint_old_code_refuted :
     old_hillclimb (list Z) next_list lrs mi limit s = Err 1.
 Proof. exact hillclimb_randint_old_code_refuted_lemma. Qed.
 
+(* ------------------------------ the dispatcher ------------------------------ *)
+(* tensor_allocation.allocate on a prepared live-range graph (one tensor per range, none declared equivalent;
+   d_wf A: 0 <= start, 0 < size, 0 < alignment, alignment divides the requested alignment A): for each of the
+   three allocators and every stream the call ends with addresses; co-live ranges are disjoint, every address
+   honours its range's alignment and is non-negative, every end is below the reported total; LinearAlloc
+   addresses are multiples of the requested alignment itself. *)
+Theorem allocate_ok : forall (S : Type) (next : S -> Z * S) tag A lrs mi limit s,
+  0 < A -> Forall (d_wf A) lrs -> footprint_bound lrs <= 2 ^ 63 -> tag = 1 \/ tag = 2 \/ tag = 3 ->
+  match allocate S next tag A lrs mi limit s with
+  | InOrder out m => Permutation (map fst out) lrs /\ pairs_ok out m
+  | ByIndex (Ok (addrs, total)) =>
+      length addrs = length lrs /\ pairs_ok (combine lrs addrs) total /\ (tag = 1 -> forall a, In a addrs -> (A | a))
+  | ByIndex (Err _) => False
+  | BadAllocator => False
+  end.
+Proof. exact allocate_ok_lemma. Qed.
+
 Print Assumptions greedy_no_overlap.
 Print Assumptions greedy_no_overlap_any_order.
 Print Assumptions greedy_aligned.
@@ -225,4 +242,5 @@ Print Assumptions hillclimb_search_terminates.
 Print Assumptions hillclimb_search_iterations_bound.
 Print Assumptions hillclimb_terminates.
 Print Assumptions hillclimb_randint_old_code_refuted.
+Print Assumptions allocate_ok.
 Print Assumptions gen_round_up_is_model.
